@@ -297,7 +297,7 @@ class GeodstStream(cccc.StreamWithDataContainer):
                     self._metadata["NCINTJ"],
                     self._metadata["NCINTK"],
                 ),
-                dtype=np.int16,
+                dtype=np.int32,
             )
         for ki in range(self._metadata["NCINTK"]):
             with self.createRecord() as record:
@@ -318,7 +318,7 @@ class GeodstStream(cccc.StreamWithDataContainer):
                     self._metadata["NINTJ"],
                     self._metadata["NINTK"],
                 ),
-                dtype=np.int16,
+                dtype=np.int32,
             )
         for ki in range(self._metadata["NINTK"]):
             with self.createRecord() as record:
